@@ -49,7 +49,7 @@ CHECKS = {
              "every crash point of every statement in the bound; each is replayed by running the real statement under I/O recording "
              "and composing the log file a crash at that point would leave, then real recovery, SELECT, and further statements. Code -> spec: seeded long runs with crashes inside log appends are validated against AbsTrace.tla (TLC searches which row prefix survived) and WalOrderTrace.tla.",
         design_ref="DESIGN.md 6 (C03)",
-        note="Crash model as in the property: cut at the last write or the last fsync, write() atomic. Known finding rootmove-record-cut "
+        note="Crash model: cut at the last fsync, at the last write, or inside the write under way. Known finding rootmove-record-cut "
              "(open) is identified by the specification's taint; torn-wal-tail was found and repaired.",
         technique="TLA+ spec (Store.tla, WalSteps) model-checked with TLC; crash images composed from recorded log writes; replay on the real engine",
     ),
@@ -57,7 +57,7 @@ CHECKS = {
         category="model_checking",
         text="Store.tla with flushes as FlushPage(p)* . FlushHdr and Crash enabled between any two steps, for flushes started by the "
              "timer action, by CREATE TABLE and by recovery itself; TLC enumerates every subset of written pages; each is replayed by "
-             "composing the data file from the page images the real flush wrote; real recovery must start and hold an allowed state. A failure on a path through a torn structural flush is excused by the known finding only where the model itself predicts the damage (pvok, StoreMC!Healthy). Code -> spec: seeded runs validated against WalOrderTrace.tla (every dirty page written before the header, header promises beyond everything on disk and in the log).",
+             "composing the data file from the page images the real flush wrote; real recovery must start and hold an allowed state. A failure on a path through a torn structural flush is excused by the known finding only where the model itself predicts the damage (pvok, StoreMC!Healthy). Code -> spec: seeded runs validated against WalOrderTrace.tla (every dirty page written before the header, header promises beyond everything on disk and in the log). The discipline itself (WalOrder.tla) is model-checked on a bounded instance (WalOrderMC) and its guarantees WriteAhead / HeaderCovers / NoOrphanStamp are proved for unbounded pages, LSNs and steps with TLAPS (WalOrderProof.tla, re-checked on every run).",
         design_ref="DESIGN.md 6 (C04)",
         note="Crash model as in the property: page writes atomic, any order, header last. Most torn flushes at capacities 3/3 are structural "
              "(known finding torn-structural-flush, open, identified by the specification's taint); the untainted ones and "
@@ -104,11 +104,11 @@ CHECKS = {
              "traced at their linearization points (lock acquire/release, first page change, data-file writes, log writes) with the real "
              "100 ms ticker, each statement parked inside its critical section until the flusher has tried the lock; TLC validates the "
              "traces against LocksTrace.tla (a write inside a statement's window, a change outside the lock, a statement that never "
-             "took the lock are unmatched events). The same driver runs under the Go race detector as an extra observer. Order traces of seeded sequential runs under page caches of 6-24 pages are validated against WalOrderTrace.tla: no page or header write while a statement holds the shared lock.",
+             "took the lock are unmatched events). The same driver runs under the Go race detector as an extra observer. Order traces of seeded sequential runs under page caches of 6-24 pages are validated against WalOrderTrace.tla: no page or header write while a statement holds the shared lock. WalOrder.tla itself is model-checked on a bounded instance (WalOrderMC), proved for unbounded sizes with TLAPS (WalOrderProof.tla) and, in the thorough tier, checked for progress under fairness (WalOrderLive.tla: every dirty page is eventually written, every flush ends).",
         design_ref="DESIGN.md 6 (C13)",
         note="Verdicts depend on event order under the lock, never on timing; the parking only makes the overlap happen on every run. "
              "Races outside the five listed statement kinds (USE / CREATE DATABASE vs the fresh ticker) are reported as notes.",
-        technique="TLA+ spec (Locks.tla) model-checked with TLC; trace validation of real goroutine schedules (LocksTrace.tla); race detector as observer",
+        technique="TLA+ specs (Locks.tla, WalOrder.tla) model-checked with TLC, WalOrder's guarantees proved with TLAPS; trace validation of real goroutine schedules (LocksTrace.tla) and of recorded write orders (WalOrderTrace.tla); race detector as observer",
     ),
     "C17": dict(
         category="model_checking",
@@ -116,10 +116,10 @@ CHECKS = {
              "names, ticks and restarts change no content) with a ghost `unsaved` set that makes TLC generate the paths on which a leaked "
              "or re-opened store would lose data; every transition of the bounded graph (3 name variants incl. case, 2 values, 8-9 steps) "
              "is replayed through engine.Session with timers replaced by ticks delivered to every store still open; after each step the "
-             "selected database is read back, at the end every database is selected in turn, compared, and must accept a new row with a fresh id. Databases declare equally named tables with different column lists, so that schema information of one database can never serve another.",
+             "selected database is read back, at the end every database is selected in turn, compared, and must accept a new row with a fresh id. Databases declare equally named tables with different column lists, so that schema information of one database can never serve another. The promises of Session.tla are also proved without bounds (any number of databases, rows, steps) with TLAPS (SessionProof.tla, re-checked on every run).",
         design_ref="DESIGN.md 6 (C17)",
         note="Found and repaired with it: use-abandons-store, failed-use-nil-service. Trusted: TLC, hooks H1/H2 (timer off, store registry).",
-        technique="TLA+ spec (Session.tla) model-checked with TLC; per-transition behaviour replay through engine.Session",
+        technique="TLA+ spec (Session.tla) model-checked with TLC and proved with TLAPS; per-transition behaviour replay through engine.Session",
     ),
     "C19": dict(
         category="exploration",
